@@ -134,6 +134,16 @@ theorem any_schedule_foreign_key_untouched (s0 : Store) (acts : List Act) (k : N
   · obtain ⟨d, hd, hk, _⟩ := any_schedule_keys_derived s0 acts k hnew h
     exact absurd hk (hall d hd)
 
+/-- **Addresses are recomputed from owner / content, never taken off the wire** (read off the struct
+definitions and accessors by the translator): a `ScratchpadAddress` carries only the owner and hashes it; a
+`RegisterAddress` carries meta + owner and hashes them; a `Transaction` has no address field and derives it
+from its owner; a `Chunk` serialises only its bytes and rebuilds its address when decoded (so the names
+stored inside `ChunkAddress` / `TransactionAddress` are never attacker-supplied). This is what makes the
+model's `derivedKey` (a function of owner / content alone) the key the code compares with. -/
+theorem addresses_recomputed :
+    padAddressRecomputed = true ∧ regAddressRecomputed = true ∧ chunkAddressOffWire = true ∧
+    txAddressRecomputed = true := by decide
+
 /-! Non-vacuity -/
 example : (validate ⟨true, .reg, 5, .reg 0 .good [⟨1, .v⟩, ⟨2, .v⟩], none⟩ [(2, .reg false [1]), (5, .reg false [1])]) =
     (.keyMismatch, []) := by decide
@@ -150,5 +160,6 @@ end SafeNet.Props.C04
 #print axioms SafeNet.Props.C04.mismatch_rejected
 #print axioms SafeNet.Props.C04.put_never_readable
 #print axioms SafeNet.Props.C04.put_event_implies_parsed
+#print axioms SafeNet.Props.C04.addresses_recomputed
 #print axioms SafeNet.Props.C04.any_schedule_keys_derived
 #print axioms SafeNet.Props.C04.any_schedule_foreign_key_untouched
